@@ -711,6 +711,8 @@ def run(ctx, ck):
     # the per-half weights of the far field treat both halves of a grounded pulse alike
     ck.rule('R-SYM.half-weights', 'a store into the per-half far-field weights that picks the half by a literal index is made for both halves')
     from ._sym import check_half_weight_symmetry
-    ck.floor('per-half weight arrays in the far field', check_half_weight_symmetry(ctx, ck), 2)
+    # (no floor: a far field that builds its weights with np.where has no such array; the positive example of the
+    # catalogue shows on every thorough run that the rule fires on today's layout)
+    ck.info('per_half_weight_arrays_in_the_far_field', check_half_weight_symmetry(ctx, ck))
     ck.undecided += ['agreement with the radiation integral (1e-4 / 2 %)', '360-degree periodicity',
                      'zenith gain independent of azimuth']
